@@ -107,7 +107,11 @@ def corr_runseq(rng, n):
 # realised deterministically with the statement-level controller of c18_sched.py: a token moves one thread from hook to hook.
 
 DO_LABEL = "run:self.do()"
-WAKE_LABEL = "wake:if self.__interrupt is None"
+def _wake_label():
+    """the first scheduling point inside wake() of the actual source (the application thread's "about to wake" hook)"""
+    park = c18_sched.parking_lines()
+    labs = sorted((ln, lab) for ((m, ln), lab) in park.items() if m == "wake")
+    return labs[0][1] if labs else "wake:<none>"
 
 
 class ProtoRun:
@@ -124,7 +128,7 @@ class ProtoRun:
 
     def app_at_hook(self):
         st, info = self.ctl.status("C")
-        return st in ("absent", "done") or (st == "parked" and info == WAKE_LABEL) or (st == "blocked" and info[0] == "join")
+        return st in ("absent", "done") or (st == "parked" and info == _wake_label()) or (st == "blocked" and info[0] == "join")
 
     def app_busy(self):
         return self.ctl.status("C")[0] not in ("absent", "done")
@@ -183,7 +187,7 @@ class ProtoRun:
         lc = "none" if st == "absent" else "dead" if st == "done" else "do" if (st == "parked" and info == DO_LABEL) else \
             "sleep" if st == "blocked" else "mid"
         st, info = self.ctl.status("C")
-        ac = "idle" if st in ("absent", "done") else "wake" if (st == "parked" and info == WAKE_LABEL) else \
+        ac = "idle" if st in ("absent", "done") else "wake" if (st == "parked" and info == _wake_label()) else \
             "join" if st == "blocked" else "mid"
         return "do=%d done=%d refused=%d started=%d loop=%s app=%s bad=0" % (len(self.ctl.dos), self.ctl.n_done, self.refused, self.started, lc, ac)
 
@@ -436,12 +440,14 @@ def random_schedules(rng, n, lo, hi):
     return out
 
 
-ATTRERR_SCHED = START + ["S F S T"] * 5 + ["call stop T T", "C F", "C F", "C F", "S F S F", "S F S F", "S F S F", "C F", "S F S F", "S F S F"]
+# the schedule of the fixed finding wake-attributeerror-…: on the pre-fix code the 4th caller tick of stop() raised AttributeError
+ATTRERR_SCHED = START + ["S F S T"] * 5 + ["call stop T T", "C F", "C F", "C F", "S F S F", "S F S F", "S F S F", "C F", "S F S F", "S F S F",
+                                      "C F", "C F", "C F"]
 ALREADY_SCHED = START + ["S F S F"] * 5 + ["call stop F F"] + ["C F"] * 5 + ["call start", "C F", "C F", "C F", "C T", "C F"]
 
 
 def judge(sched, facts):
-    """C18's own statements (exactly the hypotheses of stop_is_never_lost, loop_exits_after_stop(_interleaved),
+    """C18's own statements (exactly the hypotheses of no_attribute_error, stop_returns_normally, stop_is_never_lost, loop_exits_after_stop(_interleaved),
     no_do_after_waiting_stop_returns, restart_after_nonfinal_stop_partial, no_restart_after_final_stop) evaluated on one run of
     the real code.  -> list of failures"""
     bad = []
@@ -454,12 +460,14 @@ def judge(sched, facts):
     expect_start = None   # "refuse" | "ok"
     fresh = None          # (index, do) after a successful restart: the loop must run again
     fresh_s = 0
+    raised_seen = False
     for i, (tok, f) in enumerate(zip(sched, facts)):
         p = tok.split()
         issued = p[0] == "call" and f["moved"]
         if issued:
             what = p[1]
-            last_call = (what, p[2:])
+            last_call = (what, tuple(p[2:]))
+            raised_seen = False
             fresh = None
             if what == "start":
                 expect_start = "refuse" if final_done else ("ok" if restartable else None)
@@ -469,6 +477,13 @@ def judge(sched, facts):
             restartable = False
         svc_alive = f["svc"] not in ("absent", "done")
         done_call = f["cal"] == "done"
+        if done_call and last_call and not raised_seen:
+            if f["ret"] == "AttributeError":
+                bad.append({"statement": "no API call raises AttributeError (no_attribute_error)", "at": i, "call": " ".join(last_call[:1] + tuple(last_call[1]))})
+                raised_seen = True
+            elif last_call[0] == "stop" and f["ret"] != "ok:None":
+                bad.append({"statement": "stop() always returns normally (stop_returns_normally)", "at": i, "result": f["ret"]})
+                raised_seen = True
         if last_call and last_call[0] == "stop":
             if req is None and (f["cal"] == "blocked" or (done_call and f["ret"] == "ok:None")):
                 req, s_moved = (i, f["do"]), 0
@@ -758,17 +773,21 @@ def run(res, tier, seed, proof_broken, replay):
     lap("sites_table")
     # 2. known-finding / fixed-entry / documented-counterexample replays on the real code (deterministic schedules)
     robs, facts, _lk = c18_sched.run_real(ATTRERR_SCHED)
-    reproduced = facts[-1]["ret"] == "AttributeError"
+    raised = [i for i, f in enumerate(facts) if f["ret"] == "AttributeError"]
     ident = "wake-attributeerror-loop-exits-between-167-and-170"
     if ident in opens:
-        if reproduced:
+        if raised:
             res.known.append(ident + " :: " + opens[ident])
         else:
             res.notes.append("known finding %s is stale (the schedule no longer raises)" % ident)
-    elif reproduced and ident not in fixed:
-        res.notes.append("wake() raised AttributeError on the schedule of Props/C18Threads.wake_attrerr_witness but the finding is not listed")
-    if ident in fixed and reproduced:
-        res.violation({"property": PID, "kind": "regression of fixed finding", "id": ident, "schedule": ATTRERR_SCHED, "observed": robs[-1]})
+    elif raised:
+        # listed as fixed (or not listed at all): wake() must read the event once; the exact schedule is a regression check
+        res.violation({"property": PID, "kind": "regression of fixed finding", "id": ident, "schedule": ATTRERR_SCHED[:raised[0] + 1],
+                       "observed": robs[raised[0]], "statement": "stop()/wake() never raise AttributeError (Props/C18Threads.lean no_attribute_error, "
+                       "stop_returns_normally); witness of the pre-fix program: wake_twice_raises",
+                       "how_to_replay": "cd harness && printf '%s\\n' <schedule tokens> | /venv/bin/python c18_sched.py"})
+    else:
+        res.notes.append("fixed finding %s: its schedule completes without exception on the real code (stop() -> %s)" % (ident, facts[-1]["ret"]))
     robs2, facts2, _lk = c18_sched.run_real(ALREADY_SCHED)
     res.notes.append("restart_refused_while_old_loop_alive replayed on the real code: start() -> %s" % facts2[-1]["ret"])
     if "stop-final-race-skips-done" in fixed:
